@@ -1,0 +1,352 @@
+//go:build verif
+
+// Contracts checked by /verif/govc (comment-only file; compiled only with -tags verif).
+// The blocks for the generated ordered maps are instances of one template (one per generated file, because each
+// generated file is real code that is verified on its own).
+
+package catalog
+
+// ---------------------------------------------------------------- ordered map Tags (TagName -> *Tag)
+//@ guardedby Tags.data mx
+//@ guardedby Tags.order mx
+//@ pred RepInvTags(m *Tags) = m != nil
+//@     && (forall i int, j int :: 0 <= i && i < j && j < len(m.order) ==> m.order[i] != m.order[j])
+//@     && (forall i :: 0 <= i && i < len(m.order) ==> has(m.data, m.order[i]))
+//@     && len(m.order) == (m.data == nil ? 0 : len(m.data))
+
+//@ func (*Tags).has
+//@   tag C09 C16 C01
+//@   pure
+//@   requires m != nil && m.mx != 0
+//@   ensures ret == has(m.data, k)
+
+//@ func (*Tags).Has
+//@   tag C09 C11 C16 C01
+//@   requires m != nil && m.mx == 0
+//@   modifies m.mx
+//@   ensures m.mx == 0 && ret == has(m.data, k)
+
+//@ func (*Tags).Get
+//@   tag C09 C16 C01
+//@   requires m != nil && m.mx == 0
+//@   modifies m.mx
+//@   ensures m.mx == 0 && ret1 == has(m.data, k) && (ret1 ==> ret0 == m.data[k])
+
+//@ func (*Tags).GetValue
+//@   tag C09 C16 C01
+//@   requires m != nil && m.mx == 0
+//@   modifies m.mx
+//@   ensures m.mx == 0 && (has(m.data, k) ==> ret == m.data[k])
+
+//@ func (*Tags).Len
+//@   tag C09 C16 C01
+//@   requires m != nil && m.mx == 0
+//@   modifies m.mx
+//@   ensures m.mx == 0 && ret == (m.data == nil ? 0 : len(m.data))
+
+//@ func (*Tags).Set
+//@   tag C09 C11 C16 C01
+//@   requires RepInvTags(m) && m.mx == 0
+//@   modifies m.mx, m.data, m.order, mapof(m.data)
+//@   ensures m.mx == 0 && RepInvTags(m)
+//@   ensures old(has(m.data, k)) ==> m.order == old(m.order)
+//@   ensures !old(has(m.data, k)) ==> seqapp(m.order, old(m.order), k)
+//@   ensures has(m.data, k) && m.data[k] == v
+//@   ensures forall j TagName :: j != k ==> has(m.data, j) == old(has(m.data, j)) && (has(m.data, j) ==> m.data[j] == old(m.data[j]))
+
+//@ func (*Tags).SetToTop
+//@   tag C09 C16 C01
+//@   requires RepInvTags(m) && m.mx == 0
+//@   modifies m.mx, m.data, m.order, mapof(m.data)
+//@   ensures m.mx == 0 && RepInvTags(m)
+//@   ensures old(has(m.data, k)) ==> m.order == old(m.order)
+//@   ensures !old(has(m.data, k)) ==> len(m.order) == old(len(m.order)) + 1 && m.order[0] == k && (forall i :: 0 <= i && i < old(len(m.order)) ==> m.order[i+1] == old(m.order[i]))
+//@   ensures has(m.data, k) && m.data[k] == v
+//@   ensures forall j TagName :: j != k ==> has(m.data, j) == old(has(m.data, j)) && (has(m.data, j) ==> m.data[j] == old(m.data[j]))
+
+// ---------------------------------------------------------------- ordered map Interactions (InteractionID -> Interaction)
+//@ guardedby Interactions.data mx
+//@ guardedby Interactions.order mx
+//@ pred RepInvInteractions(m *Interactions) = m != nil
+//@     && (forall i int, j int :: 0 <= i && i < j && j < len(m.order) ==> m.order[i] != m.order[j])
+//@     && (forall i :: 0 <= i && i < len(m.order) ==> has(m.data, m.order[i]))
+//@     && len(m.order) == (m.data == nil ? 0 : len(m.data))
+
+//@ func (*Interactions).has
+//@   tag C09 C16 C01
+//@   pure
+//@   requires m != nil && m.mx != 0
+//@   ensures ret == has(m.data, k)
+
+//@ func (*Interactions).Has
+//@   tag C09 C11 C16 C01
+//@   requires m != nil && m.mx == 0
+//@   modifies m.mx
+//@   ensures m.mx == 0 && ret == has(m.data, k)
+
+//@ func (*Interactions).Get
+//@   tag C09 C16 C01
+//@   requires m != nil && m.mx == 0
+//@   modifies m.mx
+//@   ensures m.mx == 0 && ret1 == has(m.data, k) && (ret1 ==> ret0 == m.data[k])
+
+//@ func (*Interactions).GetValue
+//@   tag C09 C16 C01
+//@   requires m != nil && m.mx == 0
+//@   modifies m.mx
+//@   ensures m.mx == 0 && (has(m.data, k) ==> ret == m.data[k])
+
+//@ func (*Interactions).Len
+//@   tag C09 C16 C01
+//@   requires m != nil && m.mx == 0
+//@   modifies m.mx
+//@   ensures m.mx == 0 && ret == (m.data == nil ? 0 : len(m.data))
+
+//@ func (*Interactions).Set
+//@   tag C09 C11 C16 C01
+//@   requires RepInvInteractions(m) && m.mx == 0
+//@   modifies m.mx, m.data, m.order, mapof(m.data)
+//@   ensures m.mx == 0 && RepInvInteractions(m)
+//@   ensures old(has(m.data, k)) ==> m.order == old(m.order)
+//@   ensures !old(has(m.data, k)) ==> seqapp(m.order, old(m.order), k)
+//@   ensures has(m.data, k) && m.data[k] == v
+//@   ensures forall j InteractionID :: j != k ==> has(m.data, j) == old(has(m.data, j)) && (has(m.data, j) ==> m.data[j] == old(m.data[j]))
+
+//@ func (*Interactions).SetToTop
+//@   tag C09 C16 C01
+//@   requires RepInvInteractions(m) && m.mx == 0
+//@   modifies m.mx, m.data, m.order, mapof(m.data)
+//@   ensures m.mx == 0 && RepInvInteractions(m)
+//@   ensures old(has(m.data, k)) ==> m.order == old(m.order)
+//@   ensures !old(has(m.data, k)) ==> len(m.order) == old(len(m.order)) + 1 && m.order[0] == k && (forall i :: 0 <= i && i < old(len(m.order)) ==> m.order[i+1] == old(m.order[i]))
+//@   ensures has(m.data, k) && m.data[k] == v
+//@   ensures forall j InteractionID :: j != k ==> has(m.data, j) == old(has(m.data, j)) && (has(m.data, j) ==> m.data[j] == old(m.data[j]))
+
+// ---------------------------------------------------------------- ordered map Servers (string -> *Server)
+//@ guardedby Servers.data mx
+//@ guardedby Servers.order mx
+//@ pred RepInvServers(m *Servers) = m != nil
+//@     && (forall i int, j int :: 0 <= i && i < j && j < len(m.order) ==> m.order[i] != m.order[j])
+//@     && (forall i :: 0 <= i && i < len(m.order) ==> has(m.data, m.order[i]))
+//@     && len(m.order) == (m.data == nil ? 0 : len(m.data))
+
+//@ func (*Servers).has
+//@   tag C09 C16 C01
+//@   pure
+//@   requires m != nil && m.mx != 0
+//@   ensures ret == has(m.data, k)
+
+//@ func (*Servers).Has
+//@   tag C09 C11 C16 C01
+//@   requires m != nil && m.mx == 0
+//@   modifies m.mx
+//@   ensures m.mx == 0 && ret == has(m.data, k)
+
+//@ func (*Servers).Get
+//@   tag C09 C16 C01
+//@   requires m != nil && m.mx == 0
+//@   modifies m.mx
+//@   ensures m.mx == 0 && ret1 == has(m.data, k) && (ret1 ==> ret0 == m.data[k])
+
+//@ func (*Servers).GetValue
+//@   tag C09 C16 C01
+//@   requires m != nil && m.mx == 0
+//@   modifies m.mx
+//@   ensures m.mx == 0 && (has(m.data, k) ==> ret == m.data[k])
+
+//@ func (*Servers).Len
+//@   tag C09 C16 C01
+//@   requires m != nil && m.mx == 0
+//@   modifies m.mx
+//@   ensures m.mx == 0 && ret == (m.data == nil ? 0 : len(m.data))
+
+//@ func (*Servers).Set
+//@   tag C09 C11 C16 C01
+//@   requires RepInvServers(m) && m.mx == 0
+//@   modifies m.mx, m.data, m.order, mapof(m.data)
+//@   ensures m.mx == 0 && RepInvServers(m)
+//@   ensures old(has(m.data, k)) ==> m.order == old(m.order)
+//@   ensures !old(has(m.data, k)) ==> seqapp(m.order, old(m.order), k)
+//@   ensures has(m.data, k) && m.data[k] == v
+//@   ensures forall j string :: j != k ==> has(m.data, j) == old(has(m.data, j)) && (has(m.data, j) ==> m.data[j] == old(m.data[j]))
+
+//@ func (*Servers).SetToTop
+//@   tag C09 C16 C01
+//@   requires RepInvServers(m) && m.mx == 0
+//@   modifies m.mx, m.data, m.order, mapof(m.data)
+//@   ensures m.mx == 0 && RepInvServers(m)
+//@   ensures old(has(m.data, k)) ==> m.order == old(m.order)
+//@   ensures !old(has(m.data, k)) ==> len(m.order) == old(len(m.order)) + 1 && m.order[0] == k && (forall i :: 0 <= i && i < old(len(m.order)) ==> m.order[i+1] == old(m.order[i]))
+//@   ensures has(m.data, k) && m.data[k] == v
+//@   ensures forall j string :: j != k ==> has(m.data, j) == old(has(m.data, j)) && (has(m.data, j) ==> m.data[j] == old(m.data[j]))
+
+// ---------------------------------------------------------------- ordered map UserRules (string -> *UserRule)
+//@ guardedby UserRules.data mx
+//@ guardedby UserRules.order mx
+//@ pred RepInvUserRules(m *UserRules) = m != nil
+//@     && (forall i int, j int :: 0 <= i && i < j && j < len(m.order) ==> m.order[i] != m.order[j])
+//@     && (forall i :: 0 <= i && i < len(m.order) ==> has(m.data, m.order[i]))
+//@     && len(m.order) == (m.data == nil ? 0 : len(m.data))
+
+//@ func (*UserRules).has
+//@   tag C09 C16 C01
+//@   pure
+//@   requires m != nil && m.mx != 0
+//@   ensures ret == has(m.data, k)
+
+//@ func (*UserRules).Has
+//@   tag C09 C11 C16 C01
+//@   requires m != nil && m.mx == 0
+//@   modifies m.mx
+//@   ensures m.mx == 0 && ret == has(m.data, k)
+
+//@ func (*UserRules).Get
+//@   tag C09 C16 C01
+//@   requires m != nil && m.mx == 0
+//@   modifies m.mx
+//@   ensures m.mx == 0 && ret1 == has(m.data, k) && (ret1 ==> ret0 == m.data[k])
+
+//@ func (*UserRules).GetValue
+//@   tag C09 C16 C01
+//@   requires m != nil && m.mx == 0
+//@   modifies m.mx
+//@   ensures m.mx == 0 && (has(m.data, k) ==> ret == m.data[k])
+
+//@ func (*UserRules).Len
+//@   tag C09 C16 C01
+//@   requires m != nil && m.mx == 0
+//@   modifies m.mx
+//@   ensures m.mx == 0 && ret == (m.data == nil ? 0 : len(m.data))
+
+//@ func (*UserRules).Set
+//@   tag C09 C11 C16 C01
+//@   requires RepInvUserRules(m) && m.mx == 0
+//@   modifies m.mx, m.data, m.order, mapof(m.data)
+//@   ensures m.mx == 0 && RepInvUserRules(m)
+//@   ensures old(has(m.data, k)) ==> m.order == old(m.order)
+//@   ensures !old(has(m.data, k)) ==> seqapp(m.order, old(m.order), k)
+//@   ensures has(m.data, k) && m.data[k] == v
+//@   ensures forall j string :: j != k ==> has(m.data, j) == old(has(m.data, j)) && (has(m.data, j) ==> m.data[j] == old(m.data[j]))
+
+//@ func (*UserRules).SetToTop
+//@   tag C09 C16 C01
+//@   requires RepInvUserRules(m) && m.mx == 0
+//@   modifies m.mx, m.data, m.order, mapof(m.data)
+//@   ensures m.mx == 0 && RepInvUserRules(m)
+//@   ensures old(has(m.data, k)) ==> m.order == old(m.order)
+//@   ensures !old(has(m.data, k)) ==> len(m.order) == old(len(m.order)) + 1 && m.order[0] == k && (forall i :: 0 <= i && i < old(len(m.order)) ==> m.order[i+1] == old(m.order[i]))
+//@   ensures has(m.data, k) && m.data[k] == v
+//@   ensures forall j string :: j != k ==> has(m.data, j) == old(has(m.data, j)) && (has(m.data, j) ==> m.data[j] == old(m.data[j]))
+
+// ---------------------------------------------------------------- ordered map UserTypes (string -> *UserType)
+//@ guardedby UserTypes.data mx
+//@ guardedby UserTypes.order mx
+//@ pred RepInvUserTypes(m *UserTypes) = m != nil
+//@     && (forall i int, j int :: 0 <= i && i < j && j < len(m.order) ==> m.order[i] != m.order[j])
+//@     && (forall i :: 0 <= i && i < len(m.order) ==> has(m.data, m.order[i]))
+//@     && len(m.order) == (m.data == nil ? 0 : len(m.data))
+
+//@ func (*UserTypes).has
+//@   tag C09 C16 C01
+//@   pure
+//@   requires m != nil && m.mx != 0
+//@   ensures ret == has(m.data, k)
+
+//@ func (*UserTypes).Has
+//@   tag C09 C11 C16 C01
+//@   requires m != nil && m.mx == 0
+//@   modifies m.mx
+//@   ensures m.mx == 0 && ret == has(m.data, k)
+
+//@ func (*UserTypes).Get
+//@   tag C09 C16 C01
+//@   requires m != nil && m.mx == 0
+//@   modifies m.mx
+//@   ensures m.mx == 0 && ret1 == has(m.data, k) && (ret1 ==> ret0 == m.data[k])
+
+//@ func (*UserTypes).GetValue
+//@   tag C09 C16 C01
+//@   requires m != nil && m.mx == 0
+//@   modifies m.mx
+//@   ensures m.mx == 0 && (has(m.data, k) ==> ret == m.data[k])
+
+//@ func (*UserTypes).Len
+//@   tag C09 C16 C01
+//@   requires m != nil && m.mx == 0
+//@   modifies m.mx
+//@   ensures m.mx == 0 && ret == (m.data == nil ? 0 : len(m.data))
+
+//@ func (*UserTypes).Set
+//@   tag C09 C11 C16 C01
+//@   requires RepInvUserTypes(m) && m.mx == 0
+//@   modifies m.mx, m.data, m.order, mapof(m.data)
+//@   ensures m.mx == 0 && RepInvUserTypes(m)
+//@   ensures old(has(m.data, k)) ==> m.order == old(m.order)
+//@   ensures !old(has(m.data, k)) ==> seqapp(m.order, old(m.order), k)
+//@   ensures has(m.data, k) && m.data[k] == v
+//@   ensures forall j string :: j != k ==> has(m.data, j) == old(has(m.data, j)) && (has(m.data, j) ==> m.data[j] == old(m.data[j]))
+
+//@ func (*UserTypes).SetToTop
+//@   tag C09 C16 C01
+//@   requires RepInvUserTypes(m) && m.mx == 0
+//@   modifies m.mx, m.data, m.order, mapof(m.data)
+//@   ensures m.mx == 0 && RepInvUserTypes(m)
+//@   ensures old(has(m.data, k)) ==> m.order == old(m.order)
+//@   ensures !old(has(m.data, k)) ==> len(m.order) == old(len(m.order)) + 1 && m.order[0] == k && (forall i :: 0 <= i && i < old(len(m.order)) ==> m.order[i+1] == old(m.order[i]))
+//@   ensures has(m.data, k) && m.data[k] == v
+//@   ensures forall j string :: j != k ==> has(m.data, j) == old(has(m.data, j)) && (has(m.data, j) ==> m.data[j] == old(m.data[j]))
+
+// ---------------------------------------------------------------- StringSet
+//@ guardedby StringSet.data mx
+//@ guardedby StringSet.order mx
+//@ pred RepInvStringSet(m *StringSet) = m != nil
+//@     && (forall i int, j int :: 0 <= i && i < j && j < len(m.order) ==> m.order[i] != m.order[j])
+//@     && (forall i :: 0 <= i && i < len(m.order) ==> has(m.data, m.order[i]))
+//@     && len(m.order) == (m.data == nil ? 0 : len(m.data))
+
+//@ func (*StringSet).has
+//@   tag C09 C16 C01
+//@   pure
+//@   requires m != nil && m.mx != 0
+//@   ensures ret == has(m.data, v)
+
+//@ func (*StringSet).Has
+//@   tag C09 C16 C01
+//@   requires m != nil && m.mx == 0
+//@   modifies m.mx
+//@   ensures m.mx == 0 && ret == has(m.data, v)
+
+//@ func (*StringSet).Len
+//@   tag C09 C16 C01
+//@   requires m != nil && m.mx == 0
+//@   modifies m.mx
+//@   ensures m.mx == 0 && ret == (m.data == nil ? 0 : len(m.data))
+
+//@ func (*StringSet).Data
+//@   tag C09 C16 C01
+//@   requires m != nil && m.mx == 0
+//@   modifies m.mx
+//@   ensures m.mx == 0 && ret == m.order
+
+//@ func (*StringSet).Add
+//@   tag C09 C16 C01
+//@   requires RepInvStringSet(m) && m.mx == 0
+//@   modifies m.mx, m.data, m.order, mapof(m.data)
+//@   ensures m.mx == 0 && RepInvStringSet(m)
+//@   ensures old(has(m.data, v)) ==> m.order == old(m.order)
+//@   ensures !old(has(m.data, v)) ==> seqapp(m.order, old(m.order), v)
+//@   ensures has(m.data, v)
+//@   ensures forall j string :: j != v ==> has(m.data, j) == old(has(m.data, j))
+
+// ---------------------------------------------------------------- RulesBuilder (lock discipline)
+//@ guardedby RulesBuilder.rules mx
+//@ func (*RulesBuilder).Set
+//@   tag C16 C01
+//@   requires b != nil && b.mx == 0 && b.rules != nil && b.rules.index != nil
+//@   modifies b.mx, b.rules.data, mapof(b.rules.index)
+//@   ensures b.mx == 0 && len(b.rules.data) == old(len(b.rules.data)) + 1 && has(b.rules.index, k) && b.rules.index[k] == old(len(b.rules.data))
+//@ func (*RulesBuilder).Append
+//@   tag C16 C01
+//@   requires b != nil && b.mx == 0 && b.rules != nil
+//@   modifies b.mx, b.rules.data
+//@   ensures b.mx == 0 && len(b.rules.data) == old(len(b.rules.data)) + 1
